@@ -111,6 +111,13 @@ def parseProd {F : Type} [FloatLike F] [Widen F Float] (prod : String) (conf : C
               inner := []
               halfWidth := fun _ => 1.0
               est := [.f (Float.ofNat k / Float.ofNat n) 0.0] }, r)
+  | "qci" => do
+      let (xs, r) ← pList (α := F) toks
+      pure ({ needs := zNeed conf
+              eval := fun crit => tokOutcome (tokInterval 0.0) (Quantile.ci crit conf xs 0.5)
+              inner := []
+              halfWidth := fun _ => 1.0
+              est := [.s (toString (0.5 * Float.ofNat xs.length).round.toUSize.toNat)] }, r)
   | "qidx" => do
       let (n, r) ← pNat toks
       let (q, r) ← pF64 r
@@ -280,7 +287,7 @@ def ci2Op {F : Type} [FloatLike F] [Widen F Float] (args : List String) : Option
       let model := joinBar [pa.eval crit, pb.eval crit, pa.est]
       let u := FloatLike.u F
       let isProp := prod == "wilson" || prod == "wald"
-      let isRank := prod == "qidx"
+      let isRank := prod == "qidx" || prod == "qci"
       let cs := match impl with
         | [a, b, e] =>
           let estV : Option Float := match e with
